@@ -23,7 +23,12 @@ class CommandOption(AbstractOption):
         self._short_aliases = []
 
         for alias in aliases:
-            alias = self._remove_dash_prefix(alias)
+            # A long alias may be given with its "--", a short one with its "-"
+            long_alias = self._remove_double_dash_prefix(alias)
+            if long_alias != alias:
+                alias = long_alias
+            else:
+                alias = self._remove_dash_prefix(alias)
 
             if len(alias) == 1:
                 self._validate_short_alias(alias)
